@@ -26,8 +26,8 @@ def assoc_table(sp, factory=None):
                 try:
                     row = dict(row, cls=factory.get_association_by_signature(
                         a['name'], a['leftAsset'], a['rightAsset'], a['leftField'], a['rightField']))
-                except TypeError:      # (signature lookup without field names: keep the conventional name)
-                    pass
+                except Exception:      # noqa: BLE001  (no field names accepted / lookup fails: keep the conventional
+                    pass               # name - a missing class is reported by the check that uses the table)
             out.append(row)
         return out
     names = [a['name'] for a in sp['associations']]
